@@ -34,6 +34,21 @@ CHECKS["C15"] = (
     "DESIGN.md section 4, C15",
 )
 
+CHECKS["C12"] = (
+    "E1-explicit-state",
+    "explicit-state BFS to fixpoint over {read, assign, delete, change underlying state} histories on fresh real classes, lock-step slot-machine reference",
+    "For all 16 (overridable, cache, setter, deleter) combinations of spec_property on 5 hosts (plain class, spec class without annotation, managed annotation, + preparer, + ill-typed getter) and all 32 classproperty configurations over a three-class hierarchy, the reachable state space (reference slot state x real instance/descriptor fingerprint) is explored to fixpoint; value and exception family of every access are compared with the slot-machine reference, and a failing access must change nothing.",
+    "Trusts the reference slot machine (props/c12.py RefProp/RefClassProp); value domain {1,2,5,6,ill-typed}; cache invalidation by dependencies is C11's subject.",
+    "DESIGN.md section 4, C12",
+)
+CHECKS["C18"] = (
+    "E1-explicit-state",
+    "explicit-state BFS to fixpoint per alias configuration on fresh real hosts, lock-step (target, override) reference; DeprecatedAlias warnings counted per access",
+    "All 128 configurations (plain/spec host x Alias/DeprecatedAlias x passthrough x transform x fallback x 4 path shapes) are explored to fixpoint over {read alias (and mutate the returned fallback), write alias 5/6/ill-typed, delete alias, read/write/delete target via its own path, copy-on-write helper on alias and target, deepcopy, reset}; every outcome and the target's value are compared with the reference; state includes class-level alias state (fallback object).",
+    "Trusts the reference RefAlias (props/c18.py); on spec hosts deleting a managed target restores its class default; exactly-one-warning is demanded on plain hosts, at-least-one on spec hosts.",
+    "DESIGN.md section 4, C18",
+)
+
 ENGINES = [
     {"name": "E1-explicit-state", "path": "mc/common.py, props/*.py (explore)", "serves_properties": [],
      "kind_free_text": "breadth-first explicit-state search over the real transition function; a state is the shortest operation history that reaches it, rebuilt by replay; canonical-form deduplication; lock-step reference model"},
